@@ -37,7 +37,7 @@ theorem C02_one_vote_per_term_ever (c0 : Cfg) (s : PSys) (hr : ReachC c0 s)
 theorem C02_elected_by_quorum (c0 : Cfg) (s : PSys) (hr : ReachC c0 s) (t l : Nat)
     (h : (t, l) ∈ s.elected) :
     ∃ q, c0.isQuorum q = true ∧ ∀ x ∈ q, (⟨t, x, l⟩ : Grant) ∈ s.grants :=
-  (invV_reach c0 s hr).el (t, l) h
+  ((invV_reach c0 s hr).el (t, l) h).2
 
 /-- **Election safety**: `elected` records every election that ever happened in the history;
 no two distinct nodes are ever elected for the same term. -/
@@ -45,8 +45,8 @@ theorem C02_election_safety (c0 : Cfg) (hne : c0.incoming ≠ [] ∨ c0.outgoing
     (s : PSys) (hr : ReachC c0 s) (t a b : Nat)
     (ha : (t, a) ∈ s.elected) (hb : (t, b) ∈ s.elected) : a = b := by
   have I := invV_reach c0 s hr
-  obtain ⟨qa, hqa, hga⟩ := I.el (t, a) ha
-  obtain ⟨qb, hqb, hgb⟩ := I.el (t, b) hb
+  obtain ⟨_, qa, hqa, hga⟩ := I.el (t, a) ha
+  obtain ⟨_, qb, hqb, hgb⟩ := I.el (t, b) hb
   obtain ⟨v, hva, hvb⟩ := Cfg.quorums_intersect c0 hne qa qb hqa hqb
   have h1 := hga v hva
   have h2 := hgb v hvb
